@@ -153,8 +153,20 @@ def backend_variant(i, crash):
     return v[i % len(v)]
 
 
-def gen_quick():
+def gen_fresh():
+    """a thread's very first statement (its context is not yet in the backend's cache: the backend has drained
+    everything and sleeps) immediately followed by the terminal action of that thread"""
     cases = []
+    for script in ('0,w,1', '0,1,w,2', '0,1,1,x1,j1,w,2'):
+        toks = script.split(',')
+        for ai, act in enumerate(('stop', 'exit', 'raise:TERM', 'raise:SEGV')):
+            for ci, clock in enumerate(('sys', 'tsc')):
+                cases.append(mkcase(toks, int(toks[-1]), act, clock=clock, sleep_us=SLEEP_US, flush_ms=0 if (ai + ci) % 2 else -1, sh=1))
+    return cases
+
+
+def gen_quick():
+    cases = gen_fresh()
     pts = [(Q_BASE[:i + 1], int(Q_BASE[i])) for i in Q_POINTS]
     n = 0
     # all 6 signals x 8 points x 2 clocks
@@ -218,7 +230,7 @@ def t_base(rng, counts, fracs=None, finish=True):
 
 
 def gen_thorough(rng):
-    cases = []
+    cases = gen_fresh()
     for bn, (counts, fracs) in enumerate((({0: 18, 1: 9, 2: 13}, {1: 0.4, 2: 0.75}), ({0: 12, 1: 15, 2: 13}, {2: 0.5}))):
         base = t_base(rng, counts, fracs)
         # thread 0 logs first (a process-directed signal lands on main, which must have logged before)
